@@ -89,6 +89,15 @@ def run_case(case, acc, tier):
         if _dump(g1, with_payload=True) != _dump(g2, with_payload=True):
             ctx.violation("C08", "second_graph_of_same_source_differs", None,
                           mech=progbase.mech_of(ctx))
+        # the public entry point builds the same graph (twice)
+        from numba_scfg.core.datastructures.ast_transforms import AST2SCFG
+        for _ in range(2):
+            g3 = AST2SCFG(src)
+            acc.counters["entry_point_graphs_compared"] += 1
+            if _dump(g1, with_payload=True) != _dump(g3, with_payload=True):
+                ctx.violation("C08", "entry_point_graph_differs_from_transformer_graph", None,
+                              mech=progbase.mech_of(ctx))
+                break
     except Exception as e:
         k = exc_key(e)
         ctx.violation("C08", f"repeated_front_end_raised:{k['type']}@{k['site']}", k)
@@ -188,7 +197,7 @@ def run_shard(spec):
     acc = ShardAcc(PROPERTY)
     tier = spec.get("tier", "quick")
     for case in progbase.iter_cases(spec):
-        run_case(case, acc, tier)
+        progbase.run_with_faults(PROPERTY, run_case, case, acc, tier)
     return acc.result()
 
 
